@@ -1,13 +1,18 @@
 // C13 — typed extraction is exact when it fits and zero otherwise, never undefined.
 //
-// Modes (one binary, two build flavours):
+// Modes (one source; the job table builds one binary per mode with -DNXC_MODE_<MODE>):
 //   convert    (san)   boundary sets of every storage kind x every target type through as<T>() / is<T>() /
-//                      operator| / JSON text, numeric strings on a length grid (linked strings live in
-//                      exactly-sized heap blocks so that ASan sees any read past the terminator)
+//                      operator| on the document, on a JsonVariantConst handle and after a trip through JSON text;
+//                      numeric strings on a length grid (linked strings live in exactly-sized heap blocks so
+//                      that ASan sees any read past the terminator)
 //   strings    (fast)  numeric strings of EVERY length 1..1300, nine families, both signs, linked and copied,
-//                      every target type; value oracle only
-//   convert32  (fast)  all 2^32 bit patterns of int32 / uint32 / float storage x every distinct target type
-//   copyarray  (san)   copyArray() into 1-D, 2-D and char[N] destinations fenced by guards / exact heap blocks
+//                      every target type; value oracle only (linked strings are followed by zero bytes so that
+//                      a read past the terminator is deterministic)
+//   convert32  (fast)  all 2^32 bit patterns of int32 / uint32 / float storage x every distinct target type,
+//                      one journalled case per block of 65536 values
+//   copyarray  (san)   copyArray() into 1-D, 2-D and char[N] destinations, each both alone in an exactly-sized
+//                      heap block and between guard elements
+// Any mode accepts --selftest-negative (seeded wrong oracle, must produce violations).
 //
 // Reference conversion (written from the statement, in __int128 / long double):
 //   the stored value is known to lie in [a,b] (a==b for everything except parsed non-integer text);
@@ -253,6 +258,13 @@ struct Stats {
   uint64_t conversions = 0, nontrivial = 0, dontcare = 0, zeroed = 0, fractional = 0, isTrue = 0;
 };
 
+// --selftest-negative: a deliberately wrong reference (int8_t is taken to end at 126) that the harness must
+// report as a violation: a harness that has never failed has not been shown to work
+inline bool& selftestNegative() {
+  static bool on = false;
+  return on;
+}
+
 // what the library answered for one target type
 struct Obs {
   bool integral = false, single = false, is = false;
@@ -274,6 +286,7 @@ NXC_HOT Obs observe(Src& src, const Val& v) {
   if constexpr (std::is_integral<T>::value) {
     o.integral = true;
     o.lim = limOf<T>();
+    if (std::is_same<T, int8_t>::value && selftestNegative()) o.lim.hi = 126;
     T d = T(v.tlo == 42 ? 43 : 42);
     o.di = i128(d);
     o.ri = i128(T(src.template as<T>()));
